@@ -215,6 +215,28 @@ def sib_children(ctx, prog):
     ctx.floor(R, len(rs) + len(ks), 50)
 
 
+def _extends_with_all_parents(prog, F, site, du):
+    """The iterator handed to Vec::extend walks Node.parents through length-preserving adaptors only, except
+    for dropping dead weak entries (filter_map(upgrade))."""
+    from .expr import walk, closure_paths
+    e = expr(F, site.args[1], du)
+    if not mentions(e, lambda x: x[0] == "field" and x[2] and str(x[2][-1]).endswith("parents")):
+        return False
+    okc = ("::map", "::filter_map", "::iter", "::into_iter", "::borrow", "::deref", "::as_slice", "::as_ref")
+    for x in walk(e):
+        if x[0] == "call" and not x[1].endswith(okc):
+            return False
+    okg = ("Weak::upgrade", "::weak", "Rc::downgrade", "::clone", "::deref", "::packed", "::as_ref")
+    for cp in closure_paths(e):
+        G = prog.fn(cp)
+        if G is None:
+            return False
+        for t in G.calls():
+            if not any((t.callee or "").split("::<")[0].endswith(k) or q.callee_is(t, k.lstrip(":")) for k in okg):
+                return False
+    return True
+
+
 def pdom_sched(ctx, prog):
     R = "C01.PDOM-sched"
     ctx.rule(R, "every staleness-making write is followed by a scheduling action on every path, modulo the "
@@ -339,7 +361,14 @@ def pdom_sched(ctx, prog):
         n += len(src) + len(pushes)
         ctx.site(R, F, "changed_at %s loops %s pushes %s" % ([a.bb for a in src], loops, sorted(pushes)))
         ploops = [l for l in loops if any(b in l.body for b in pushes)]
-        if len(src) != 1 or not ploops:
+        ext = [o for o in coll_ops(prog, F) if o.method.endswith("::extend") and o.bb in pushes]
+        if len(src) == 1 and not ploops and ext and _extends_with_all_parents(prog, F, ext[0].site, du):
+            # `stack.extend(parents.iter().filter_map(upgrade).map(weak))`: the loop written as an iterator chain
+            if c.dominates(src[0].bb, ext[0].bb) and c.path([src[0].bb], c.exits, avoid={ext[0].bb}) is None:
+                ctx.ok(R, "invalidate:parents", "iterator-chain form")
+            else:
+                ctx.fail(R, "invalidate:parents", "the parents are not pushed on every path after the store", fn=F)
+        elif len(src) != 1 or not ploops:
             ctx.fail(R, "invalidate:shape", "invalidate_node: expected a changed_at store and a loop pushing the "
                      "parents on propagate_invalidity", fn=F, kind="anchor")
         else:
@@ -453,6 +482,8 @@ def dom_stamp(ctx, prog):
     else:
         ctx.ok(R, "stamp")
     ctx.floor(R, len(ucs), 9)
+    from .shared import changed_at_stamp_unconditional
+    changed_at_stamp_unconditional(ctx, prog, R)
 
 
 def latch(ctx, prog):
